@@ -251,15 +251,6 @@ func (t *tattach) handle(cs *connState) message {
 	if err != nil {
 		return newErr(err)
 	}
-	qid, valid, attr, err := sf.GetAttr(AttrMaskAll)
-	if err != nil {
-		sf.Close() // Drop file.
-		return newErr(err)
-	}
-	if !valid.Mode {
-		sf.Close() // Drop file.
-		return newErr(linux.EINVAL)
-	}
 
 	// Build a transient reference.
 	root := &fidRef{
@@ -267,9 +258,28 @@ func (t *tattach) handle(cs *connState) message {
 		parent:   nil,
 		file:     sf,
 		refs:     1,
-		mode:     attr.Mode.FileType(),
 		pathNode: cs.server.pathTree,
 	}
+
+	// GetAttr is a read operation on the root path like any other: it must
+	// not run concurrently with write or rename operations on the root.
+	var (
+		qid   QID
+		valid AttrMask
+		attr  Attr
+	)
+	if err := root.safelyRead(func() (err error) {
+		qid, valid, attr, err = sf.GetAttr(AttrMaskAll)
+		return err
+	}); err != nil {
+		sf.Close() // Drop file.
+		return newErr(err)
+	}
+	if !valid.Mode {
+		sf.Close() // Drop file.
+		return newErr(linux.EINVAL)
+	}
+	root.mode = attr.Mode.FileType()
 	defer root.DecRef()
 
 	// Attach the root?
